@@ -437,11 +437,11 @@ PROPS["C03"] = {
 PROPS["C07"] = {
     "level": "other",
     "level_text": "Bounded symbolic execution of single events of the real loop code over a ghost kernel that keeps a descriptor ledger: every redirected system call (read, write, writev, epoll_ctl, close, accept, recvfrom, sendto, dup) asserts that the framework owns the descriptor number it passes, that nothing is closed twice and that user-owned (Dup) and foreign (re-used number) descriptors are never touched; run over the lifecycle events of C04 (all close causes, synchronous closes inside callbacks, stale requests after number re-use) plus close-with-unsent-output under a failing kernel, listener/poller close-once and Dup ownership.",
-    "level_note": "One event per harness (inductive through the representation invariant 'opened <=> registered <=> descriptor owned and not closed'); 'closed at the latest when Run returns' is reduced to closeConns/closeEventLoops/Poller.Close releasing everything exactly once (the goroutine choreography of Run/stop is C06, not claimed). Client.EnrollContext and EventLoop.Enroll are executed up to and including the protocol dispatch with a user net.Conn of a kind gnet does not serve and one injected setsockopt failure (the worker-pool Submit is redirected to a synchronous call): every error return after socket.Dup must have closed the duplicate (DESIGN.md F11, fixed). The *net.TCPConn/UnixConn/UDPConn branches and the successful hand-off (blocking on the loop goroutine) are not executed. Trusted: go/ssa lowering, SSA->SMT translation, z3, ghost kernel.",
+    "level_note": "One event per harness (inductive through the representation invariant 'opened <=> registered <=> descriptor owned and not closed'); 'closed at the latest when Run returns' is reduced to closeConns/closeEventLoops/Poller.Close releasing everything exactly once (the goroutine choreography of Run/stop is C06, not claimed). Client.EnrollContext and EventLoop.Enroll are executed up to and including the protocol dispatch with a user net.Conn of a kind gnet does not serve and one injected setsockopt failure (the worker-pool Submit is redirected to a synchronous call): every error return after socket.Dup must have closed the duplicate (DESIGN.md F11, fixed). The successful hand-off is executed for the TCP branch (harness type standing in for *net.TCPConn, the loop goroutine played by running the loop's queued tasks at the point where the worker waits); UnixConn/UDPConn branches are not executed. Trusted: go/ssa lowering, SSA->SMT translation, z3, ghost kernel.",
     "design_ref": "DESIGN.md section 5 (loop-step family, C07)",
     "explanation": "Ledger assertions live in the ghost kernel (internal/vk, labels C07.*) and are therefore evaluated on every path of every loop-step harness of this unit.",
     "bounds": {"events": 1, "writes_per_event": 3},
-    "outside": ["enrol branches that need a real *net.TCPConn/UnixConn/UDPConn and the successful hand-off to the loop goroutine", "interleavings with other goroutines opening descriptors (modelled as 'the number is foreign-owned' pre-states)"],
+    "outside": ["enrol branches for *net.UnixConn/*net.UDPConn; the TCP branch runs with the harness connection type standing in for *net.TCPConn (textual rewrite of the type switch) and address resolution / net.Dial as harness stubs", "interleavings with other goroutines opening descriptors (modelled as 'the number is foreign-owned' pre-states)"],
     "assumptions": ["ghost kernel contract"],
     "units": [dict(_LOOP_COMMON, name="loop-fd", files=["harness/gnet/vloop_world.go", "harness/gnet/c14_pick.go", "harness/gnet/c04_lifecycle.go", "harness/gnet/c04_batch.go", "harness/gnet/c07_fd.go"], cfg={"vcfg": {"nodes": 1}})],
 }
@@ -463,16 +463,25 @@ def _patch_units():
     us = PROPS["C12"]["units"]
     PROPS["C12"]["units"] = [zone_unit if u == "__LOOP_ZONE__" else u for u in us]
     PROPS["C17"]["units"].append(dict(zone_unit, name="loop-zone-c17", files=zone_unit["files"] + ["harness/gnet/c14_pick.go", "harness/gnet/c17_accept.go"]))
+    # the enrol paths: the worker pool runs the submitted function at once; the harness's connection type stands in for
+    # *net.TCPConn in the protocol switch; resolving the peer's own address string and dialling are harness stubs; waiting
+    # for the loop goroutine to run the registration = running the loop's queued tasks here (one legal schedule)
+    enroll_pairs = [("socket.Dup(int(fd))", "vk.DupIn(int(fd))"), ("case *net.TCPConn:", "case *net.TCPConn, *vUserTCP:"),
+                    ("socket.GetTCPSockAddr(c.RemoteAddr().Network(), c.RemoteAddr().String())", "vGetTCPSockAddr(c.RemoteAddr().Network(), c.RemoteAddr().String())"),
+                    ("<-connOpened", "vAwaitOpened(el, connOpened)")]
+
     def el_enroll(src, out):
         _LOOP_REWRITES["eventloop_unix.go"](src, out)
         t = open(out).read()
-        a = "goroutine.DefaultWorkerPool.Submit(func() {"
-        if a not in t or "socket.Dup(int(fd))" not in t:
-            raise RuntimeError("eventloop_unix.go: enroll anchors not found")
-        t = t.replace(a, "vSubmit(func() {").replace("socket.Dup(int(fd))", "vk.DupIn(int(fd))")
+        for a, b in enroll_pairs + [("goroutine.DefaultWorkerPool.Submit(func() {", "vSubmit(func() {"), ("net.Dial(addr.Network(), addr.String())", "vDial(addr.Network(), addr.String())")]:
+            if a not in t:
+                raise RuntimeError("eventloop_unix.go: enroll anchor not found: " + a)
+            t = t.replace(a, b)
         open(out, "w").write(t + "\nvar _ = goroutine.DefaultWorkerPool // keep the import alive (verification overlay)\n")
-    enroll_rw = dict(_LOOP_REWRITES, **{"eventloop_unix.go": el_enroll, "client_unix.go": _vk_redirect([("socket.Dup(int(fd))", "vk.DupIn(int(fd))"), ("socket.SetSendBuffer(", "vk.SockOpt("), ("socket.SetRecvBuffer(", "vk.SockOpt("), ("socket.SetNoDelay(", "vk.SockOpt("), ("unix.Close(", "vk.Close(")])})
+    enroll_rw = dict(_LOOP_REWRITES, **{"eventloop_unix.go": el_enroll, "client_unix.go": _vk_redirect(enroll_pairs + [("socket.SetSendBuffer(", "vk.SockOpt("), ("socket.SetRecvBuffer(", "vk.SockOpt("), ("socket.SetNoDelay(", "vk.SockOpt("), ("unix.Close(", "vk.Close(")])})
     PROPS["C07"]["units"].append(dict(_LOOP_COMMON, name="loop-enroll", files=["harness/gnet/vloop_world.go", "harness/gnet/c14_pick.go", "harness/gnet/c07_enroll.go"], rewrites=enroll_rw, cfg={"vcfg": {"nodes": 1}}))
+    for pid in ("C04", "C17"):
+        PROPS[pid]["units"].append(dict(_LOOP_COMMON, name="loop-enroll-" + pid.lower(), files=["harness/gnet/vloop_world.go", "harness/gnet/c14_pick.go", "harness/gnet/c07_enroll.go"], rewrites=enroll_rw, cfg={"vcfg": {"nodes": 1}}))
     PROPS["C19"]["units"].append(dict(_LOOP_COMMON, name="loop-enroll-c19", files=["harness/gnet/vloop_world.go", "harness/gnet/c14_pick.go", "harness/gnet/c07_enroll.go"], rewrites=enroll_rw, cfg={"vcfg": {"nodes": 1}}))
     PROPS["C15"]["units"].append(dict(_LOOP_COMMON, name="loop-assign", files=["harness/gnet/vloop_world.go", "harness/gnet/c14_pick.go", "harness/gnet/c15_assign.go"], cfg={"vcfg": {"nodes": 1}}))
 
